@@ -20,7 +20,12 @@ def make_cases(rng, tier):
                 faults = rng.sample(faults, 9)
             for (name, mkf, inj) in faults:
                 is_bool = any(name == n for n, _, _ in c09.bool_faults())
-                body = c09.place(pos, None if is_bool else mkf(), mkf() if is_bool else None)
+                fault = mkf()
+                if not is_bool and rng.random() < 0.4:
+                    fault = mparen(fault)            # the faulty arithmetic as the direct operand of a pair of brackets
+                    if rng.random() < 0.5:
+                        fault = mk_mbin(rng.choice(["+", "*"]), mint(2), fault)
+                body = c09.place(pos, None if is_bool else fault, fault if is_bool else None)
                 if body is None:
                     continue
                 # push the fault down the page: filler statements before it, other rules before and after
@@ -30,7 +35,7 @@ def make_cases(rng, tier):
                 for k in range(rng.randint(0, 2)):
                     prelude.append(("p%d" % k, None, 50 + k, block([assign(("var", "q"), "=", ("math", mint(k)))])))
                 names = {d["name"] for d in inj}
-                c = make_case(cid, body, [d for d in base if d["name"] not in names] + inj, rng=rng, fancy=True, prelude=prelude, sal=1)
+                c = make_case(cid, body, [d for d in base if d["name"] not in names] + inj, rng=rng, fancy=True, prelude=prelude, sal=1, multiline=rng.random() < 0.6)
                 c["fault"], c["position"] = name, pos
                 cases.append(c); cid += 1
     return cases
@@ -42,7 +47,7 @@ def nontrivial(c, o):
     return (c.get("fault"), c.get("position"), o["cites"][0][0])
 
 
-RULE = ("single-fault programs: 31 fault classes x 12 construct positions (as C09) printed under random layouts — random indentation, tabs, blank lines, comment lines, 0-4 filler statements before the fault, 0-2 other rules "
+RULE = ("single-fault programs: 31 fault classes x 12 construct positions (as C09) printed under random layouts — random indentation, tabs, blank lines, comment lines, line breaks in the middle of constructs (60 % of the texts), the faulty arithmetic inside brackets (40 %), 0-4 filler statements before the fault, 0-2 other rules "
         "before the faulty rule in the same text — so that the faulty construct lands on an arbitrary line; compared: every (line, column) cited by the error text (regex `line N, column M`) with the citation list of the model, whose node "
         "positions are those the printer assigned to first tokens, and every node position in the listener-built tree with the printer's; distinct non-trivial = distinct (fault class, position, cited line) with at least one citation")
 
